@@ -14,6 +14,13 @@ use std::collections::BTreeMap;
 
 /// vector length 1..=200, biased to short vectors
 fn draw_n(c: &mut Case, lo: usize) -> usize {
+    match scverif::big() {
+            // beyond the ~200 entries of the ordinary families: some thousand entries
+        1 => return c.rng.us(300, 3000),
+        // f64 only: around a hundred thousand entries (counts whose products pass 2^31)
+        2 => return c.rng.us(93000, 100000),
+        _ => {}
+    }
     let r = c.rng.f();
     let n = if r < 0.3 {
         c.rng.us(1, 8)
@@ -32,8 +39,12 @@ fn size_bucket(c: &mut Case, n: usize) {
         "n:2-8"
     } else if n <= 50 {
         "n:9-50"
-    } else {
+    } else if n <= 200 {
         "n:51-200"
+    } else if n <= 3000 {
+        "n:300-3000"
+    } else {
+        "n:93000-100000"
     });
 }
 
@@ -280,6 +291,8 @@ fn auc_t<T: RealNumber>(c: &mut Case) {
     let mut yt: Vec<f64> = (0..n).map(|i| if i < npos { 1.0 } else { 0.0 }).collect();
     c.rng.shuffle(&mut yt);
     let kind = *c.rng.pick(&["continuous", "continuous", "informative", "few-values", "few-values", "constant", "rounded", "integers", "separating", "anti-separating", "signed-zero", "sorted-input", "sort-killer", "underflowed"]);
+    // the quadratic cases of the sort (worst-case orders, heavy ties) are only affordable up to some thousand entries
+    let kind = if n > 9000 && kind != "informative" { "continuous" } else { kind };
     let sc = *c.rng.pick(&[1.0, 1.0, 1e-6, 1e6, -1.0]);
     let mut ys: Vec<f64> = match kind {
         "continuous" => (0..n).map(|_| c.rng.f() * sc).collect(),
@@ -345,18 +358,32 @@ fn auc_t<T: RealNumber>(c: &mut Case) {
     ys = round_vec::<T>(&ys);
     // definition: P(score(pos) > score(neg)) + ½·P(equal) over all positive/negative pairs
     let (mut gt, mut ties) = (0u64, 0u64);
-    for i in 0..n {
-        if yt[i] != 1.0 {
-            continue;
-        }
-        for j in 0..n {
-            if yt[j] != 0.0 {
+    if n <= 4000 {
+        for i in 0..n {
+            if yt[i] != 1.0 {
                 continue;
             }
-            if ys[i] > ys[j] {
-                gt += 1;
-            } else if ys[i] == ys[j] {
-                ties += 1;
+            for j in 0..n {
+                if yt[j] != 0.0 {
+                    continue;
+                }
+                if ys[i] > ys[j] {
+                    gt += 1;
+                } else if ys[i] == ys[j] {
+                    ties += 1;
+                }
+            }
+        }
+    } else {
+        // the same two counts in O(n log n): negatives sorted, for each positive the negatives below it and equal to it
+        let mut negs: Vec<f64> = (0..n).filter(|&j| yt[j] == 0.0).map(|j| ys[j]).collect();
+        negs.sort_by(|a, b| a.partial_cmp(b).unwrap());
+        for i in 0..n {
+            if yt[i] == 1.0 {
+                let below = negs.partition_point(|v| *v < ys[i]);
+                let upto = negs.partition_point(|v| *v <= ys[i]);
+                gt += below as u64;
+                ties += (upto - below) as u64;
             }
         }
     }
@@ -992,10 +1019,25 @@ both!(regression, regression_t, 0.3);
 both!(hcv, hcv_t, 0.25);
 both!(mismatch, mismatch_t, 0.25);
 
+/// the five metric groups on vectors of 300..3000 entries
+fn long_vectors(c: &mut Case) {
+    if c.index % 40 == 7 {
+        return scverif::with_big(2, || if c.index % 80 == 7 { auc_t::<f64>(c) } else { binary_t::<f64>(c) });
+    }
+    let g = c.index % 5;
+    scverif::with_big(1, || match g {
+        0 => accuracy(c),
+        1 => binary(c),
+        2 => auc(c),
+        3 => regression(c),
+        _ => hcv(c),
+    })
+}
+
 fn main() {
     runner::main(Spec {
         property: "C15",
-        rule: "cases are drawn per family from seeded generators: vector length 1..200 (30% 1..8, 40% 9..50, 30% 51..200), f64 or f32 (25-30%); accuracy: binary / multiclass / real labels with planted equalities; binary: every class balance (0, 1, n-1, n, uniform positives) x predictions (flipped copy, independent, all-negative, all-positive, single positive), beta in {1, 0.5, 2, log-uniform 0.1..10}; auc: 1..n-1 positives, scores continuous / informative / 2-5 distinct values / constant / rounded / integers / separating / signed zeros / pre-sorted; regression: targets normal / integer / two-valued / constant, offset 0 or 0.1..1000 spreads, scale 1 or log-uniform (1e-100..1e100 f64, 1e-6..1e6 f32), predictions exact / noisy / unrelated / mean / shifted; hcv: 1..8 classes per side with arbitrary distinct integer label values (|v| <= 1e7), random / noisy copy / identical / renamed copy / refinement / coarsening / exact product table / single-class true, pred, both / one outlier; mismatch: the seven pairwise metrics (index mod 7) on binary vectors of different lengths 1..201 through either API. A case is non-trivial when at least one metric value is defined by the statement and compared (all cases except binary cases where neither precision nor recall is defined); distinct = distinct hash of (family tag, width, both vectors, beta/api); auc also draws the worst-case orders of the library's median-of-three argsort (gen::sort_killer); auc_sort_stress: 64..200 tie-free scores, 1500 hill-climbing steps (swap / reverse / rotate) from structured starts incl. both sort-killer orders, guided by the high-water mark of the sort's explicit stack (verif gauge), verdicts no-panic and the value of the definition at the start and the end of the search",
+        rule: "cases are drawn per family from seeded generators: vector length 1..200 (30% 1..8, 40% 9..50, 30% 51..200; long_vectors: 300..3000, one case in 40 with 93000..100000 entries of f64), f64 or f32 (25-30%); accuracy: binary / multiclass / real labels with planted equalities; binary: every class balance (0, 1, n-1, n, uniform positives) x predictions (flipped copy, independent, all-negative, all-positive, single positive), beta in {1, 0.5, 2, log-uniform 0.1..10}; auc: 1..n-1 positives, scores continuous / informative / 2-5 distinct values / constant / rounded / integers / separating / signed zeros / pre-sorted; regression: targets normal / integer / two-valued / constant, offset 0 or 0.1..1000 spreads, scale 1 or log-uniform (1e-100..1e100 f64, 1e-6..1e6 f32), predictions exact / noisy / unrelated / mean / shifted; hcv: 1..8 classes per side with arbitrary distinct integer label values (|v| <= 1e7), random / noisy copy / identical / renamed copy / refinement / coarsening / exact product table / single-class true, pred, both / one outlier; mismatch: the seven pairwise metrics (index mod 7) on binary vectors of different lengths 1..201 through either API. A case is non-trivial when at least one metric value is defined by the statement and compared (all cases except binary cases where neither precision nor recall is defined); distinct = distinct hash of (family tag, width, both vectors, beta/api); auc also draws the worst-case orders of the library's median-of-three argsort (gen::sort_killer); auc_sort_stress: 64..200 tie-free scores, 1500 hill-climbing steps (swap / reverse / rotate) from structured starts incl. both sort-killer orders, guided by the high-water mark of the sort's explicit stack (verif gauge), verdicts no-panic and the value of the definition at the start and the end of the search",
         assumptions: vec![
             "oracle arithmetic is f64 with compensated sums on the inputs already rounded to the width under test",
             "0/0 cases are outside the statement and are counted, not checked: precision without predicted positives, recall without actual positives, F-beta when precision or recall is undefined or both are 0 (the documented harmonic-mean formula is 0/0), AUC without a positive or without a negative (never generated), R² of a constant target",
@@ -1012,6 +1054,7 @@ fn main() {
             Family::new("regression", 8000, 160000, regression),
             Family::new("hcv", 12000, 240000, hcv),
             Family::new("mismatch", 4000, 80000, mismatch),
+            Family::new("long_vectors", 400, 4000, long_vectors),
         ],
         min_nontrivial: 8000,
         case_timeout_s: 120,
